@@ -142,7 +142,7 @@ def digest_of(unit, path):
     return None
 
 
-def run_units(pid, units, tier, seed, level, rule, assumptions, extra_cov=None, known=None, exclude_note=None, post_cov=None, fuzz=None):
+def run_units(pid, units, tier, seed, level, rule, assumptions, extra_cov=None, known=None, exclude_note=None, post_cov=None, fuzz=None, extra=None):
     """Build and run all units; returns exit code.  Writes evidence."""
     t0 = time.time()
     work = tempfile.mkdtemp(prefix="skv-%s-" % pid, dir=skv._mk(os.path.join(skv.BUILD, "tmp")))
@@ -264,6 +264,10 @@ def run_units(pid, units, tier, seed, level, rule, assumptions, extra_cov=None, 
             fv, fuzz_info, fstat, fhash = run_fuzz(pid, fuzz["prop"], units[0], units, work, seed,
                                                    workers=fuzz.get("workers", 8), seconds=fuzz.get("seconds", 120))
             violations.extend(fv); stat_files.extend(fstat); hash_files.extend(fhash)
+        extra_info = None
+        if extra:
+            ev, extra_info = extra(pid, tier, seed, work, units)
+            violations.extend(ev)
         st = skv.merge_stats(stat_files)
         distinct = count_distinct(hash_files)
         cov = dict(evaluations=st["evaluations"], distinct_nontrivial=distinct, rule=rule, samples=st["samples"],
@@ -271,6 +275,8 @@ def run_units(pid, units, tier, seed, level, rule, assumptions, extra_cov=None, 
         cov.update(st["extra"])
         if fuzz_info:
             cov["libfuzzer_campaign"] = fuzz_info
+        if extra_info:
+            cov.update(extra_info)
         if digest_info:
             cov["cross_process_and_cross_build_digest_comparisons"] = digest_info
         if extra_cov:
@@ -294,7 +300,7 @@ def run_units(pid, units, tier, seed, level, rule, assumptions, extra_cov=None, 
         shutil.rmtree(work, ignore_errors=True)
 
 
-def replay_only(pid, units, path):
+def replay_only(pid, units, path, extra_replay=None):
     work = tempfile.mkdtemp(prefix="skv-%s-" % pid, dir=skv._mk(os.path.join(skv.BUILD, "tmp")))
     try:
         bad = 0; digests = {}
@@ -312,6 +318,10 @@ def replay_only(pid, units, path):
                 prev = digests.setdefault(u.digest_group, dg)
                 if prev != dg:
                     print("[%s] transcript digest differs from the first unit of group %s" % (u.name, u.digest_group)); bad += 1
+        if extra_replay and not bad:
+            msg = extra_replay(path, work)
+            if msg:
+                print("[extra oracle] " + msg); bad += 1
         if bad:
             print("VIOLATION property=%s replay=%s" % (pid, path))
             return 1
